@@ -1,5 +1,7 @@
-(** Concurrent keystore writers (C17): lock discipline lemmas (general) and an exhaustive
-    check, computed inside Coq, of every interleaving of two writers. *)
+(** Concurrent keystore writers (C17): lock discipline lemmas (general) and an exhaustive check,
+    computed inside Coq, of EVERY schedule of bounded configurations of handles: writers on an
+    existing ring (in-sync and stale snapshots) and handles racing on the CREATION of a ring
+    (OpenKeyRingRW / generate on a ring that does not exist yet). *)
 From Acra Require Import Lib.Bytes Lib.Outcome Gen.KswConsts Model.KeystoreWrite Model.RunKeystoreWrite Proofs.KeystoreWrite.
 Local Open Scope Z_scope.
 
@@ -38,22 +40,111 @@ Proof.
   unfold write_key_ring, locked, call. cbn [pbind]. eexists. reflexivity.
 Qed.
 
-(** * Exhaustive interleavings of two writers (bounded; computed) *)
-Fixpoint inter (fuel a b : nat) : list (list nat) :=
+(** OpenKeyRingRW - also when the ring does not exist and is created - starts by taking the
+    EXCLUSIVE lock: the existence check (Get) is made under the lock that covers the creation *)
+Theorem open_head rid : exists k, open_key_ring_rw rid = Call BLock k.
+Proof. unfold open_key_ring_rw, locked, call. cbn [pbind]. eexists. reflexivity. Qed.
+
+(** so does every operation a handle can run *)
+Theorem hop_prog_head hr o :
+  match hr with Some h => h_log h = [] | None => True end ->
+  (exists r, hop_prog hr o = Done r) \/ (exists k, hop_prog hr o = Call BLock k).
+Proof.
+  intro Hlog. destruct o as [w|rid|rid ord|rid]; cbn [hop_prog].
+  - destruct hr as [h|]; [|left; eauto].
+    destruct (ring_op_head h w Hlog) as [[r E]|[k E]]; rewrite E; cbn [pbind]; [left|right]; eauto.
+  - right. destruct (open_head rid) as [k E]. rewrite E. cbn [pbind]. eauto.
+  - right. unfold gen_key. destruct (open_head rid) as [k E]. rewrite E. cbn [pbind]. eauto.
+  - right. unfold destroy_current. destruct (open_head rid) as [k E]. rewrite E. cbn [pbind]. eauto.
+Qed.
+
+(** * EVERY schedule of a finite configuration (computed) *)
+
+(** the successors of a global state: one per handle that can step *)
+Definition succs (n : nat) (g : gstate) : list gstate :=
+  flat_map (fun i => match gstep g i with Some g' => [g'] | None => [] end) (seq 0 n).
+
+(** [chk] in every reachable state, [stp] on every step, [fin] in every terminal state; [false]
+    when the fuel (= maximal number of steps of a run) does not suffice *)
+Fixpoint all_runs (fuel n : nat) (chk : gstate -> bool) (stp : gstate -> gstate -> bool)
+         (fin : gstate -> bool) (g : gstate) : bool :=
   match fuel with
-  | O => [[]]
-  | S fuel' =>
-      match a, b with
-      | O, O => [[]]
-      | _, _ =>
-          (match a with O => [] | S a' => map (cons 0%nat) (inter fuel' a' b) end) ++
-          (match b with O => [] | S b' => map (cons 1%nat) (inter fuel' a b') end)
+  | O => false
+  | S f =>
+      chk g &&
+      match succs n g with
+      | [] => fin g
+      | l => forallb (fun g' => stp g g' && all_runs f n chk stp fin g') l
       end
   end.
 
-Definition fair_tail : list nat :=
-  [0; 1; 0; 1; 0; 1; 0; 1; 0; 1; 0; 1; 0; 1; 0; 1; 0; 1; 0; 1; 0; 1; 0; 1]%nat.
+Lemma set_nth_length {A} (x : A) : forall l i, length (set_nth i x l) = length l.
+Proof. induction l as [|y l IH]; intros [|i]; cbn [set_nth length]; auto. Qed.
 
+Lemma gstep_length g i g' : gstep g i = Some g' -> length (g_hs g') = length (g_hs g) /\ (i < length (g_hs g))%nat.
+Proof.
+  unfold gstep. destruct (nth_error (g_hs g) i) as [h0|] eqn:En; [|discriminate].
+  assert (Hi : (i < length (g_hs g))%nat) by (apply nth_error_Some; congruence).
+  destruct (hd_cur (settled h0)) as [[a|c k]|]; try discriminate.
+  destruct (lock_step i c (g_lock g)); [|discriminate].
+  destruct (do_call c (g_st g)) as [v st']. intro H. inversion H; subst. cbn [g_hs].
+  rewrite set_nth_length. auto.
+Qed.
+
+Lemma in_succs n g i g' : gstep g i = Some g' -> (i < n)%nat -> In g' (succs n g).
+Proof.
+  intros H Hi. unfold succs. apply in_flat_map. exists i. split.
+  - apply in_seq. lia.
+  - rewrite H. left. reflexivity.
+Qed.
+
+Lemma succs_nil n g : (forall i, gstep g i = None) -> succs n g = [].
+Proof.
+  intro H. unfold succs. induction (seq 0 n) as [|i l IH]; cbn [flat_map]; [reflexivity|].
+  rewrite H, IH. reflexivity.
+Qed.
+
+Lemma in_succs_inv n g g' : In g' (succs n g) -> exists i, gstep g i = Some g'.
+Proof.
+  unfold succs. intro H. apply in_flat_map in H as [i [_ H]].
+  destruct (gstep g i) as [g1|] eqn:E; [|contradiction].
+  destruct H as [H|[]]. subst. eauto.
+Qed.
+
+Lemma succs_terminal n g : length (g_hs g) = n -> succs n g = [] -> forall i, gstep g i = None.
+Proof.
+  intros Hn Hs i. destruct (gstep g i) as [g1|] eqn:E; [|reflexivity].
+  destruct (gstep_length _ _ _ E) as [_ Hi]. rewrite Hn in Hi.
+  pose proof (in_succs n g i g1 E Hi) as Hin. rewrite Hs in Hin. contradiction.
+Qed.
+
+(** soundness: what [all_runs] has checked holds along EVERY schedule, of any length *)
+Lemma all_runs_sound n chk stp fin : forall sched fuel g,
+  length (g_hs g) = n -> all_runs fuel n chk stp fin g = true ->
+  chk (grun g sched) = true /\
+  (forall i g', gstep (grun g sched) i = Some g' -> stp (grun g sched) g' = true) /\
+  ((forall i, gstep (grun g sched) i = None) -> fin (grun g sched) = true).
+Proof.
+  induction sched as [|i rest IH]; intros fuel g Hn Hr.
+  - cbn [grun]. destruct fuel as [|f]; [discriminate|]. cbn [all_runs] in Hr.
+    apply andb_true_iff in Hr as [Hc Hr]. split; [exact Hc|]. split.
+    + intros i g' Hs. destruct (gstep_length _ _ _ Hs) as [_ Hi]. rewrite Hn in Hi.
+      pose proof (in_succs n g i g' Hs Hi) as Hin.
+      destruct (succs n g) as [|x l] eqn:El; [contradiction|].
+      rewrite forallb_forall in Hr. specialize (Hr g' Hin).
+      apply andb_true_iff in Hr as [Hr _]. exact Hr.
+    + intro Hterm. rewrite (succs_nil n g Hterm) in Hr. exact Hr.
+  - cbn [grun]. destruct (gstep g i) as [g1|] eqn:Es; [|apply (IH fuel g Hn Hr)].
+    destruct fuel as [|f]; [discriminate|]. cbn [all_runs] in Hr.
+    apply andb_true_iff in Hr as [_ Hr].
+    destruct (gstep_length _ _ _ Es) as [Hl Hi]. rewrite Hn in Hi, Hl.
+    pose proof (in_succs n g i g1 Es Hi) as Hin.
+    destruct (succs n g) as [|x l] eqn:El; [contradiction|].
+    rewrite forallb_forall in Hr. specialize (Hr g1 Hin).
+    apply andb_true_iff in Hr as [_ Hr]. apply (IH f g1 Hl Hr).
+Qed.
+
+(** * What is checked *)
 Fixpoint iota_eqb (a : Z) (l : list Z) : bool :=
   match l with [] => true | x :: t => Z.eqb x a && iota_eqb (a + 1) t end.
 
@@ -69,75 +160,61 @@ Definition wf_b (st : storage) : bool :=
                     | _ => true
                     end) st.
 
-(** seqnums of ring [rid] in [st] extend those of [r0] *)
 Fixpoint prefix_b (a b : list Z) : bool :=
   match a, b with
   | [], _ => true
   | x :: a', y :: b' => Z.eqb x y && prefix_b a' b'
   | _, [] => false
   end.
-Definition grows_b (rid : N) (r0 : ring) (st : storage) : bool :=
-  match lookup (FRing rid) st with
-  | Some (CRing true r) => prefix_b (map k_seq (r_keys r0)) (map k_seq (r_keys r))
-  | _ => false
+
+(** one step: every stored ring is still stored and verifying and its seqnums are only extended
+    (committed keys never disappear; a ring file is never replaced by an empty ring) *)
+Definition mono_b (st st' : storage) : bool :=
+  forallb (fun e => match e with
+                    | (FRing rid, CRing true r) =>
+                        match lookup (FRing rid) st' with
+                        | Some (CRing true r') => prefix_b (map k_seq (r_keys r)) (map k_seq (r_keys r'))
+                        | _ => false
+                        end
+                    | _ => true
+                    end) st.
+
+Definition obs_g (g : gstate) : list bytes := enc_storage (g_st g) :: map obs_handle (g_hs g).
+
+(** the serial reference: every order in which the handles can run their operations ONE WHOLE
+    OPERATION AT A TIME ([sstep]); the observations (storage, results, in-memory rings) at the end *)
+Definition ssuccs (n : nat) (g : gstate) : list gstate :=
+  flat_map (fun i => match sstep g i with Some g' => [g'] | None => [] end) (seq 0 n).
+
+Fixpoint serial_outs (fuel n : nat) (g : gstate) : list (list bytes) :=
+  match fuel with
+  | O => []
+  | S f => match ssuccs n g with [] => [obs_g g] | l => flat_map (serial_outs f n) l end
   end.
 
-(** run a schedule checking [chk] in every intermediate global state *)
-Fixpoint grun_check (chk : gstate -> bool) (g : gstate) (sched : list nat) : bool * gstate :=
-  match sched with
-  | [] => (chk g, g)
-  | i :: rest =>
-      match gstep g i with
-      | Some g' => let (b, gf) := grun_check chk g' rest in (chk g && b, gf)
-      | None => grun_check chk g rest
-      end
-  end.
+Definition c17_fuel : nat := 100.
+Definition c17_sfuel : nat := 16.
 
-Definition obs_handle (h : handle) : bytes :=
-  enc_nat (length (hd_todo (settled h))) ++ flat_map enc_res (rev (hd_out (settled h))) ++ enc_ring (h_data (hd_ring (settled h))).
+Definition conf_ok (st : storage) (hs : list handle) : bool :=
+  let g0 := mk_g st LFree hs in
+  let outs := serial_outs c17_sfuel (length hs) g0 in
+  all_runs c17_fuel (length hs)
+           (fun g => wf_b (g_st g))
+           (fun g g' => mono_b (g_st g) (g_st g'))
+           (fun g => existsb (list_bytes_eqb (obs_g g)) outs) g0.
 
-Definition serial2 (st : storage) (h0 h1 : hring) (o0 o1 : wop) (first0 : bool) : list bytes :=
-  if first0 then
-    let '(st1, h0', r0) := run_op_serial st h0 o0 in
-    let '(st2, h1', r1) := run_op_serial st1 h1 o1 in
-    [enc_storage st2; enc_nat 0 ++ enc_res r0 ++ enc_ring (h_data h0'); enc_nat 0 ++ enc_res r1 ++ enc_ring (h_data h1')]
-  else
-    let '(st1, h1', r1) := run_op_serial st h1 o1 in
-    let '(st2, h0', r0) := run_op_serial st1 h0 o0 in
-    [enc_storage st2; enc_nat 0 ++ enc_res r0 ++ enc_ring (h_data h0'); enc_nat 0 ++ enc_res r1 ++ enc_ring (h_data h1')].
-
-(** one schedule of one configuration:
-    (i) every intermediate storage is well formed and only extends the seqnums (readers, seqnums),
-    (ii) the final storage, results and in-memory rings equal those of one of the two serial orders *)
-Definition sched_ok (st : storage) (rid : N) (r0 : ring) (h0 h1 : hring) (o0 o1 : wop) (sched : list nat) : bool :=
-  let g0 := mk_g st LFree [mk_handle h0 [o0] None []; mk_handle h1 [o1] None []] in
-  let r := grun_check (fun g => wf_b (g_st g) && grows_b rid r0 (g_st g)) g0 (sched ++ fair_tail) in
-  let o := enc_storage (g_st (snd r)) :: map obs_handle (g_hs (snd r)) in
-  fst r && (list_bytes_eqb o (serial2 st h0 h1 o0 o1 true) || list_bytes_eqb o (serial2 st h0 h1 o0 o1 false)).
-
-(** EVERY interleaving of the two operations' back-end calls *)
-Definition conf_ok (st : storage) (rid : N) (r0 : ring) (h0 h1 : hring) (o0 o1 : wop) : bool :=
-  forallb (sched_ok st rid r0 h0 h1 o0 o1) (inter 10 5 5).
-
-Definition c17_ring : ring := mk_ring [mk_kent 1 2 5; mk_kent 2 1 6] 1.
-Definition c17_stale : ring := mk_ring [mk_kent 1 1 5] (-1).
-Definition c17_st : storage := [(FRing 1, CRing true c17_ring)].
-Definition c17_alphabet : list wop :=
-  [WAdd 7; WAdd 9; WSetCurrent 1; WSetCurrent 2; WSetCurrent 3; WSetState 1 3; WSetState 2 2; WSetState 2 4; WDestroy 1; WDestroy 2].
-
-Lemma forallb3_unpack (alpha : list wop) (scheds : list (list nat)) (F : wop -> wop -> list nat -> bool) :
-  forallb (fun a => forallb (fun b => forallb (fun s => F a b s) scheds) alpha) alpha = true ->
-  forall a b s, In a alpha -> In b alpha -> In s scheds -> F a b s = true.
-Proof.
-  intros H a b s Ha Hb Hs.
-  rewrite forallb_forall in H. specialize (H a Ha). cbv beta in H.
-  rewrite forallb_forall in H. specialize (H b Hb). cbv beta in H.
-  rewrite forallb_forall in H. exact (H s Hs).
-Qed.
-
-Definition c17_both (o0 o1 : wop) (sched : list nat) : bool :=
-  sched_ok c17_st 1 c17_ring (mk_hring 1 c17_ring []) (mk_hring 1 c17_ring []) o0 o1 sched &&
-  sched_ok c17_st 1 c17_ring (mk_hring 1 c17_ring []) (mk_hring 1 c17_stale []) o0 o1 sched.
+(** the property of a configuration, for EVERY schedule [sched] (any length, any order):
+    (i) the storage reached has only complete, verifying, well-formed rings (readers, seqnums);
+    (ii) whatever step comes next keeps every stored ring and only extends its seqnums;
+    (iii) when nobody can step any more, the storage, the operations' results and the in-memory
+          rings are those of one of the serial executions (whole operations, some order) *)
+Definition runs_ok (st : storage) (hs : list handle) : Prop :=
+  forall sched,
+    let g := grun (mk_g st LFree hs) sched in
+    wf_b (g_st g) = true /\
+    (forall i g', gstep g i = Some g' -> mono_b (g_st g) (g_st g') = true) /\
+    ((forall i, gstep g i = None) ->
+     In (obs_g g) (serial_outs c17_sfuel (length hs) (mk_g st LFree hs))).
 
 Lemma list_bytes_eqb_eq a : forall b, list_bytes_eqb a b = true -> a = b.
 Proof.
@@ -145,24 +222,100 @@ Proof.
   apply andb_true_iff in H as [H1 H2]. apply bytes_eqb_eq in H1. apply IH in H2. congruence.
 Qed.
 
-Lemma sched_ok_spec st rid r0 h0 h1 o0 o1 sched :
-  sched_ok st rid r0 h0 h1 o0 o1 sched = true ->
-  let g0 := mk_g st LFree [mk_handle h0 [o0] None []; mk_handle h1 [o1] None []] in
-  let r := grun_check (fun g => wf_b (g_st g) && grows_b rid r0 (g_st g)) g0 (sched ++ fair_tail) in
-  fst r = true /\
-  let o := enc_storage (g_st (snd r)) :: map obs_handle (g_hs (snd r)) in
-  (o = serial2 st h0 h1 o0 o1 true \/ o = serial2 st h0 h1 o0 o1 false).
+Lemma conf_ok_sound st hs : conf_ok st hs = true -> runs_ok st hs.
 Proof.
-  intro H. unfold sched_ok in H. cbv zeta in *.
-  apply andb_true_iff in H as [Hinv Hser]. split; [exact Hinv|].
-  apply orb_true_iff in Hser as [E|E]; apply list_bytes_eqb_eq in E; [left|right]; exact E.
+  intros H sched. unfold conf_ok in H. cbv zeta in H.
+  destruct (all_runs_sound _ _ _ _ sched _ (mk_g st LFree hs) eq_refl H) as (H1 & H2 & H3).
+  cbv zeta. split; [exact H1|]. split; [exact H2|].
+  intro Hterm. specialize (H3 Hterm). apply existsb_exists in H3 as [o [Hin Heq]].
+  apply list_bytes_eqb_eq in Heq. rewrite Heq. exact Hin.
 Qed.
 
-Theorem writers_serializable_bounded :
-  forall o0 o1 sched,
-    In o0 c17_alphabet -> In o1 c17_alphabet -> In sched (inter 10 5 5) ->
-    c17_both o0 o1 sched = true.
+(** * The configurations *)
+Definition c17_ring : ring := mk_ring [mk_kent 1 2 5; mk_kent 2 1 6] 1.
+Definition c17_stale : ring := mk_ring [mk_kent 1 1 5] (-1).
+Definition c17_st : storage := [(FRing 1, CRing true c17_ring)].
+Definition c17_alphabet : list wop :=
+  [WAdd 7; WAdd 9; WSetCurrent 1; WSetCurrent 2; WSetCurrent 3; WSetState 1 3; WSetState 2 2; WSetState 2 4; WDestroy 1; WDestroy 2].
+
+(** (1) two writers holding a key ring object of the existing ring (in sync / stale), one operation each *)
+Definition c17_snapshots : list hring := [mk_hring 1 c17_ring []; mk_hring 1 c17_stale []].
+Definition c17_writer (h : hring) (o : wop) : handle := mk_handle (Some h) [HRing o] None [].
+
+(** (2), (3) handles WITHOUT a key ring object racing on ring 1 which does not exist yet: the
+    store is empty, holds another ring, or holds the temporary file of an interrupted creation *)
+Definition fresh (p : list hop) : handle := mk_handle None p None [].
+Definition c17_creation_short (a : N) : list (list hop) :=
+  [ [HOpen 1];
+    [HOpen 1; HRing (WAdd a)];
+    [HOpen 1; HRing (WAdd a); HRing (WSetCurrent 1)];
+    [HGen 1 a];
+    [HDestroyCur 1] ].
+Definition c17_creation_long (a b : N) : list (list hop) :=
+  [ [HOpen 1; HRing (WAdd a); HRing (WSetCurrent 2); HRing (WAdd b)];
+    [HGen 1 a; HGen 1 b] ].
+Definition c17_creation_progs (a b : N) : list (list hop) := c17_creation_short a ++ c17_creation_long a b.
+Definition c17_fresh_storages : list storage :=
+  [ []; [(FRing 2, CRing true c17_ring)]; [(FRingNew 1, CRing false c17_ring)] ].
+Definition c17_creation_progs3 (a : N) : list (list hop) :=
+  [ [HOpen 1]; [HOpen 1; HRing (WAdd a)]; [HGen 1 a] ].
+Definition c17_creation_progs3b (a : N) : list (list hop) :=
+  [ [HOpen 1]; [HOpen 1; HRing (WAdd a)] ].
+
+Lemma forallb3_unpack {A B C} (la : list A) (lb : list B) (lc : list C) (F : A -> B -> C -> bool) :
+  forallb (fun a => forallb (fun b => forallb (fun c => F a b c) lc) lb) la = true ->
+  forall a b c, In a la -> In b lb -> In c lc -> F a b c = true.
 Proof.
-  apply (forallb3_unpack c17_alphabet (inter 10 5 5) c17_both).
-  vm_cast_no_check (eq_refl true).
+  intros H a b c Ha Hb Hc.
+  rewrite forallb_forall in H. specialize (H a Ha). cbv beta in H.
+  rewrite forallb_forall in H. specialize (H b Hb). cbv beta in H.
+  rewrite forallb_forall in H. exact (H c Hc).
+Qed.
+
+Definition c17_existing_F (o0 o1 : wop) (h1 : hring) : bool :=
+  conf_ok c17_st [c17_writer (mk_hring 1 c17_ring []) o0; c17_writer h1 o1].
+Definition c17_creation_F (st : storage) (p0 p1 : list hop) : bool := conf_ok st [fresh p0; fresh p1].
+Definition c17_creation3_F (p0 p1 p2 : list hop) : bool := conf_ok [] [fresh p0; fresh p1; fresh p2].
+
+Lemma c17_existing_all_true :
+  forall o0 o1 h1, In o0 c17_alphabet -> In o1 c17_alphabet -> In h1 c17_snapshots -> c17_existing_F o0 o1 h1 = true.
+Proof. apply (forallb3_unpack c17_alphabet c17_alphabet c17_snapshots c17_existing_F). vm_cast_no_check (eq_refl true). Qed.
+
+Lemma c17_creation_all_true :
+  forall st p0 p1, In st c17_fresh_storages -> In p0 (c17_creation_short 7) -> In p1 (c17_creation_short 17) ->
+    c17_creation_F st p0 p1 = true.
+Proof. apply (forallb3_unpack c17_fresh_storages (c17_creation_short 7) (c17_creation_short 17) c17_creation_F). vm_cast_no_check (eq_refl true). Qed.
+
+Lemma c17_creation_long_all_true :
+  forall st p0 p1, In st [ ([] : storage) ] -> In p0 (c17_creation_long 7 8) -> In p1 (c17_creation_progs 17 18) ->
+    c17_creation_F st p0 p1 = true.
+Proof. apply (forallb3_unpack [ ([] : storage) ] (c17_creation_long 7 8) (c17_creation_progs 17 18) c17_creation_F). vm_cast_no_check (eq_refl true). Qed.
+
+Lemma c17_creation3_all_true :
+  forall p0 p1 p2, In p0 (c17_creation_progs3 7) -> In p1 (c17_creation_progs3 17) -> In p2 (c17_creation_progs3b 27) ->
+    c17_creation3_F p0 p1 p2 = true.
+Proof. apply (forallb3_unpack (c17_creation_progs3 7) (c17_creation_progs3 17) (c17_creation_progs3b 27) c17_creation3_F). vm_cast_no_check (eq_refl true). Qed.
+
+(** Bounds: (1) two writers x one operation of [c17_alphabet] each, in-sync or stale key ring
+    objects of an existing ring; (2) two handles without a key ring object racing on the creation of
+    ring 1, programs of [c17_creation_short] (OpenKeyRingRW [+AddKey [+SetCurrent]], generate,
+    destroy-current), store empty / holding another ring / holding the temporary file of an
+    interrupted creation; (2') the same with the longer programs of [c17_creation_long] (second
+    AddKey, two generate calls) from the empty store; (3) THREE handles racing on the creation.
+    NOT bounded: the schedule - [runs_ok] quantifies over every list of handle indices. *)
+Theorem writers_serializable_bounded :
+  (forall o0 o1 h1, In o0 c17_alphabet -> In o1 c17_alphabet -> In h1 c17_snapshots ->
+     runs_ok c17_st [c17_writer (mk_hring 1 c17_ring []) o0; c17_writer h1 o1]) /\
+  (forall st p0 p1, In st c17_fresh_storages -> In p0 (c17_creation_short 7) -> In p1 (c17_creation_short 17) ->
+     runs_ok st [fresh p0; fresh p1]) /\
+  (forall p0 p1, In p0 (c17_creation_long 7 8) -> In p1 (c17_creation_progs 17 18) ->
+     runs_ok [] [fresh p0; fresh p1]) /\
+  (forall p0 p1 p2, In p0 (c17_creation_progs3 7) -> In p1 (c17_creation_progs3 17) -> In p2 (c17_creation_progs3b 27) ->
+     runs_ok [] [fresh p0; fresh p1; fresh p2]).
+Proof.
+  split; [|split; [|split]].
+  - intros o0 o1 h1 H0 H1 Hh. apply conf_ok_sound. exact (c17_existing_all_true o0 o1 h1 H0 H1 Hh).
+  - intros st p0 p1 Hst H0 H1. apply conf_ok_sound. exact (c17_creation_all_true st p0 p1 Hst H0 H1).
+  - intros p0 p1 H0 H1. apply conf_ok_sound. exact (c17_creation_long_all_true [] p0 p1 (or_introl eq_refl) H0 H1).
+  - intros p0 p1 p2 H0 H1 H2. apply conf_ok_sound. exact (c17_creation3_all_true p0 p1 p2 H0 H1 H2).
 Qed.
